@@ -36,13 +36,40 @@ def worker(case, led):
             mps = U.make_state(model, q, max(M, 2) if M else 8, rng)
             if mps is None:
                 continue
+            # the initial guess may be any state reachable by arithmetic / gauge moves (sums, operator images, unnormalised, centre anywhere, metadata of
+            # either direction): the optimiser has to bring it to a canonical gauge itself
+            rng_g = np.random.default_rng([seed, n, 809, sum(map(ord, name)), nroots, 0 if M is None else M, 1 if method == "1site" else 2, sum(np.abs(np.asarray(q).reshape(-1)))])
+            guess = ["fresh", "cano", "cano2", "right", "center", "sum", "H@", "scaled", "sum-of-right", "H@right", "sum-of-left"][int(rng_g.integers(11))]
+            if guess in ("sum-of-right", "H@right", "sum-of-left"):
+                # metadata of a canonical state (centre at an end, matching direction) on tensors that are not canonical any more
+                mps = mps.ensure_right_canonical() if "right" in guess else mps.ensure_left_canonical()
+                guess = "sum" if guess.startswith("sum") else "H@"
+                prepared = True
+            else:
+                prepared = False
+            if guess in ("fresh", "cano", "cano2", "right", "center"):
+                mps = S.apply_gauge(mps, guess, int(rng.integers(n)))
+            elif guess == "sum":
+                other = U.make_state(model, q, 2, rng)
+                if other is not None:
+                    if prepared:
+                        other = other.ensure_right_canonical() if mps.qnidx == 0 else other.ensure_left_canonical()
+                    mps = mps.add(other.scale(0.7))
+            elif guess == "H@":
+                cand = H.apply(mps)
+                if np.abs(S.dense(cand)).max() > 1e-6:
+                    cand.optimize_config = mps.optimize_config
+                    mps = cand
+            else:
+                mps = mps.scale(3.0)
             full = M is None
             Mv = 32 if full else M
             mps.optimize_config.procedure = [[Mv, 0.4], [Mv, 0.2], [Mv, 0.0], [Mv, 0.0], [Mv, 0.0]]
             mps.optimize_config.method = method
             mps.optimize_config.nroots = nroots
             key = (name, n, str(q), method, nroots, M)
-            rep = {"model": name, "nsites": n, "sector": q, "method": method, "nroots": nroots, "M": Mv, "seed": seed, "exact_levels": lam[:4].tolist()}
+            rep = {"model": name, "nsites": n, "sector": q, "method": method, "nroots": nroots, "M": Mv, "seed": seed, "exact_levels": lam[:4].tolist(), "initial_guess": guess + (" of canonical operands" if prepared else ""),
+                   "guess_meta": {"qnidx": int(mps.qnidx), "to_right": bool(mps.to_right), "bond_dims": [int(b) for b in mps.bond_dims]}}
             fields = {"method": method, "nroots": nroots}
             st = np.random.get_state()
             np.random.seed(seed + 17)
@@ -53,16 +80,18 @@ def worker(case, led):
                 continue
             finally:
                 np.random.set_state(st)
-            E = np.asarray(energies, dtype=float)
+            # with several roots every micro-iteration reports up to nroots values (fewer where the local space is smaller): keep them ragged
+            rows = [np.sort(np.atleast_1d(np.asarray(e, dtype=float)).ravel()) for e in energies]
+            E = np.concatenate(rows) if rows else np.zeros(0)
             scale = max(1.0, np.abs(lam).max())
             if nroots == 1:
                 led.check(np.all(E >= lam[0] - KE * scale), "post:optimize_mps:energies_are_upper_bounds", "optimize_mps",
                           f"a reported energy {E.min():.10f} is below the exact sector ground energy {lam[0]:.10f}", key + ("var",), fields, rep)
                 outs = [out]
             else:
-                Es = np.sort(E.reshape(-1, nroots), axis=1)
-                led.check(np.all(Es >= lam[:nroots][None, :] - 1e-7 * scale), "post:optimize_mps:energies_are_upper_bounds", "optimize_mps",
-                          f"state-averaged energies {Es.min(axis=0)} fall below the exact levels {lam[:nroots]}", key + ("var",), fields, rep)
+                bad = [(r.tolist(), lam[:len(r)].tolist()) for r in rows if len(r) > nroots or np.any(r < lam[:len(r)] - 1e-7 * scale)]
+                led.check(not bad, "post:optimize_mps:energies_are_upper_bounds", "optimize_mps",
+                          f"state-averaged energies fall below the exact levels (Cauchy interlacing): {bad[:2]}", key + ("var",), fields, rep)
                 outs = list(out)
             for k, o in enumerate(outs):
                 v = S.dense(o)
@@ -78,7 +107,12 @@ def worker(case, led):
                 # (with a truncating bond limit the energy reported by the local eigensolver precedes the truncation of the update)
                 v = S.dense(outs[0])
                 e_state = np.vdot(v, Hd @ v).real
-                led.check(abs(e_state - E.min()) <= 1e-7 * scale, "post:optimize_mps:returned_state_has_reported_energy", "optimize_mps",
+                # the returned state is the one stored at the site that was optimal in the previous sweep (documented in single_sweep), i.e. possibly
+                # before the last sweep has passed the remaining sites: it agrees with the lowest reported energy to the optimiser's own
+                # convergence tolerance (optimize_config.e_rtol / e_atol), not better
+                oc = outs[0].optimize_config
+                tol_conv = 10 * (oc.e_rtol * abs(E.min()) + oc.e_atol)
+                led.check(abs(e_state - E.min()) <= max(1e-7 * scale, tol_conv), "post:optimize_mps:returned_state_has_reported_energy", "optimize_mps",
                           f"<psi|H|psi> = {e_state:.10f} vs lowest reported {E.min():.10f}", key + ("consistent",), fields, rep)
             if full:
                 if nroots == 1:
